@@ -49,7 +49,7 @@ EXTRA_CONC = {"C03": "absorb,buffers", "C10": "pending,readerr"}
 
 PROPS_FILES = {
     "C01": ["props/C01.v"], "C02": ["props/C02.v"], "C03": ["props/C03.v"], "C04": ["props/C04.v"], "C08": ["props/C08.v"],
-    "C09": ["props/C09.v"], "C10": ["props/C10.v"], "C11": ["props/C11.v"], "C12": ["props/C12.v"], "C19": ["props/C19.v"],
+    "C09": ["props/C09.v"], "C10": ["props/C10.v"], "C11": ["props/C11.v"], "C12": ["props/Bridge2.v", "props/C12.v"], "C19": ["props/C19.v"],
 }
 
 
@@ -169,13 +169,16 @@ def run_ino_property(run, quick_n=96, thorough_n=2400, steps=45):
             okx, logx = run_xlate("cfg,consts")
             files = ["obl/OblCfg.v"] + files
         if ok_static and okx:
-            ok, log = coq_make([files[-1] + "o"])
+            ok, log = coq_make([f + "o" for f in files if f.startswith("props/")])
         elif not okx:
             log = logx
         total, done, failed = proof_obligations(files, log, ok)
         pa_closed, pa_axioms = 0, []
         if ok:
-            _, pa_closed, pa_axioms, _ = props_assumptions(files[-1])
+            for pf in [f for f in files if f.startswith("props/")]:
+                _, c1, a1, _ = props_assumptions(pf)
+                pa_closed += c1
+                pa_axioms += a1
         okb, logb, inobin = build_all()
     if not ok_static or not ok:
         run.violation("proof-" + ",".join(failed)[:80], "Coq obligation no longer checks: " + ", ".join(failed),
